@@ -133,6 +133,13 @@ def pairCase (ps : List String) : String :=
   else if !hasStart && first.isSome then "viol startval"
   else s!"ok total={total} first={showFirst}"
 
+/-- `zero ty=…`: requests and yielded values equal to the zero value (0 here; the model is value-agnostic) are
+    paired like any others: one caller asks [0,5,0,6], the target yields [3,0,4,0] -/
+def zeroCase : String :=
+  let ys := [3, 0, 4, 0]
+  let s := runRR (fun seen => ys.getD seen.length 0) 5 1 64 (init (fun i => if i = 0 then [0, 5, 0, 6] else []) none)
+  if xsOf 0 s.served == [0, 5, 0, 6] && s.got 0 == ys then "ok zero" else "viol model-run"
+
 /-- DoNotation / YieldFromIO: `result` is written by the effect goroutine before `wg.Done()`, and read after
     `wg.Wait()` returned -/
 inductive WgSt | running | stored (v : Nat) | signalled (v : Nat)
@@ -161,6 +168,7 @@ def b01 (b : Bool) : String := if b then "b1" else "b0"
 def handle (line : String) : String :=
   match (line.splitOn " ").filter (· ≠ "") with
   | "pair" :: ps => pairCase ps
+  | "zero" :: _ => zeroCase
   | ["donot", p] => match doNotation ((kv [p] "v").toNat?.getD 0) with | some v => s!"ok {v}" | none => "hang"
   | ["yfio", p] => match doNotation ((kv [p] "v").toNat?.getD 0) with | some v => s!"ok {v}" | none => "hang"
   | ["flags"] => " ".intercalate (flagsTrace.map (fun f => b01 f.started ++ " " ++ b01 f.done))
